@@ -60,6 +60,29 @@ Section C02.
     Some (run_workflow fn_sem name None steps trigger).
   Proof. exact (schedule_exists_thm fn_sem). Qed.
 
+  (* ... at every nesting depth: let sub-workflows complete THEIR steps in orders
+     of their own, chosen per evaluation ([sched_closed rl']: rl' follows
+     _reconcile_step_logic, a sub-workflow's Result being that of SOME schedule
+     of its steps under rl' again).  Then every evaluation of Logic still
+     returns what the sequential model computes, and so does the whole pass.
+     [deep_nodup]: labels distinct in every sub-workflow (prepare's guarantee). *)
+  Theorem C02_nested_schedules : forall rl',
+    sched_closed fn_sem rl' ->
+    forall lg, deep_nodup lg = true ->
+    forall inputs en, rl' lg inputs en = run_logic fn_sem lg inputs en.
+  Proof. exact (nested_schedules_thm fn_sem). Qed.
+
+  Theorem C02_nested_result : forall rl' name steps trigger sched w,
+    sched_closed fn_sem rl' -> well_formed steps ->
+    Forall (fun s => deep_nodup (s_logic s) = true) steps ->
+    sched_result rl' steps trigger name sched = Some w ->
+    w = run_workflow fn_sem name None steps trigger.
+  Proof. exact (nested_result_thm fn_sem). Qed.
+
+  (* (the sequential evaluator is itself such an evaluator) *)
+  Theorem C02_sched_closed_inhabited : sched_closed fn_sem (run_logic fn_sem).
+  Proof. exact (run_logic_sched_closed fn_sem). Qed.
+
   (* "A forEach step returns its results in source-list order, each invocation
      having received exactly its own item": under any schedule the step's
      outcome is assembled from the evaluations on item 0, item 1, … in that
@@ -148,6 +171,9 @@ Print Assumptions C02_complete_unique.
 Print Assumptions C02_result_schedule_independent.
 Print Assumptions C02_two_schedules.
 Print Assumptions C02_schedule_exists.
+Print Assumptions C02_nested_schedules.
+Print Assumptions C02_nested_result.
+Print Assumptions C02_sched_closed_inhabited.
 Print Assumptions C02_foreach_order_and_items.
 Print Assumptions C02_foreach_values_in_source_order.
 Print Assumptions C02_foreach_failure_is_error.
